@@ -106,6 +106,22 @@ Section DnsProofs.
     apply read_full_some in E2. destruct E2 as [Er Hb2]. subst p r1. rewrite !app_length in Hlen. lia.
   Qed.
 
+  (* anything after a complete frame is answered No (RFC 1035 4.2.2 allows several messages on one connection; the matcher
+     deliberately treats a second message or garbage as "not DNS"), whatever the frame contains *)
+  Lemma dns_tcp_trailing_no c (lb msg t : list byte) : length lb = 2%nat -> be_N lb = N.of_nat (length msg) -> t <> [] ->
+    dmatch c true (lb ++ msg ++ t) = No.
+  Proof.
+    intros Hl Hb Ht. unfold dns_match.
+    assert (E1 : read_full 2 (lb ++ msg ++ t) = Some (lb, msg ++ t)).
+    { unfold read_full. rewrite app_length, Hl. cbn [Nat.ltb Nat.leb Nat.add]. rewrite <- Hl.
+      rewrite firstn_app_le, firstn_all, skipn_app_le, skipn_all by lia. reflexivity. }
+    rewrite E1, Hb, Nat2N.id. destruct (_ || _); [reflexivity|].
+    assert (E2 : read_full (length msg) (msg ++ t) = Some (msg, t)).
+    { unfold read_full. rewrite app_length. replace (length msg + length t <? length msg)%nat with false by (symmetry; apply Nat.ltb_ge; lia).
+      rewrite firstn_app_le, firstn_all, skipn_app_le, skipn_all by lia. reflexivity. }
+    rewrite E2. destruct (read_full 1 t) eqn:E3; [reflexivity|]. apply read_full_1_none_nil in E3. contradiction.
+  Qed.
+
   (* ---- the rule table equals its specification ---- *)
   Lemma questions_loop_spec c qs : has_rules c = true ->
     questions_loop re_match c qs = forallb (question_spec re_match c) qs.
